@@ -137,7 +137,6 @@ func runTimeline(tl timeline, dir string) outcome {
 	var mu sync.Mutex
 	var all []rec
 	var wg sync.WaitGroup
-	var nearEdge bool
 	for w, script := range tl.Writers {
 		wg.Add(1)
 		go func() {
@@ -223,7 +222,17 @@ func runTimeline(tl timeline, dir string) outcome {
 	wg.Wait()
 	app.Stop()
 
-	// ---- oracle over the measured history
+	out := judge(tl.Name, dir, interval, all, len(tl.Writers) == 1)
+	out.nearEdge = out.nearEdge && len(tl.Writers) >= 2
+	out.restartsIn = restartsSameSecond
+	return out
+}
+
+// judge is the oracle over a measured history: every record whole, exactly once, in a file of the
+// right name; no file holds a write that completed before the time in its name; with single set
+// (writes issued one at a time) a write started after a boundary is not in the previous interval's file.
+func judge(name, dir string, interval time.Duration, all []rec, single bool) outcome {
+	var nearEdge bool
 	ents, _ := os.ReadDir(dir)
 	type key struct{ w, seq int }
 	found := map[key]int{}
@@ -231,8 +240,8 @@ func runTimeline(tl timeline, dir string) outcome {
 	sizeOf := map[key]int{}
 	for _, e := range ents {
 		m := nameRe.FindStringSubmatch(e.Name())
-		if m == nil || m[1] != tl.Name {
-			return outcome{err: fmt.Errorf("the directory holds %q, which is not of the form %s.<yyyyMMddHHmmss>", e.Name(), tl.Name)}
+		if m == nil || m[1] != name {
+			return outcome{err: fmt.Errorf("the directory holds %q, which is not of the form %s.<yyyyMMddHHmmss>", e.Name(), name)}
 		}
 		nameTime, err := time.ParseInLocation("20060102150405", m[2], time.Local)
 		if err != nil {
@@ -261,8 +270,7 @@ func runTimeline(tl timeline, dir string) outcome {
 			sizeOf[key{w, seq}] = n
 		}
 	}
-	single := len(tl.Writers) == 1
-	for _, r := range all {
+		for _, r := range all {
 		k := key{r.w, r.seq}
 		if found[k] != 1 {
 			return outcome{err: fmt.Errorf("record writer=%d seq=%d (%d bytes, written %s) is present %d times in the files, expected exactly once", r.w, r.seq, r.size, r.start.Format("15:04:05.000"), found[k])}
@@ -288,7 +296,7 @@ func runTimeline(tl timeline, dir string) outcome {
 	if len(found) != len(all) {
 		return outcome{err: fmt.Errorf("the files hold %d distinct records, %d were written", len(found), len(all))}
 	}
-	return outcome{files: len(ents), nearEdge: nearEdge && len(tl.Writers) >= 2, restartsIn: restartsSameSecond, records: len(all)}
+	return outcome{files: len(ents), nearEdge: nearEdge, records: len(all)}
 }
 
 func TestC13_Timelines(t *testing.T) {
@@ -345,6 +353,162 @@ func TestC13_Timelines(t *testing.T) {
 			}
 		}
 	})
+}
+
+// spinUntil sleeps most of the way and spins the rest: goroutines that must act at the same instant
+// have to be running when it comes (woken from a sleep they arrive up to a millisecond apart here).
+func spinUntil(at time.Time, spin time.Duration) {
+	if d := time.Until(at) - spin; d > 0 {
+		time.Sleep(d)
+	}
+	for time.Now().Before(at) {
+	}
+}
+
+// TestC13_Edges generates the two boundary situations the free-running time-lines only meet by luck.
+//
+//	start-across: many appenders, each stopped and started again in a tight loop while an interval
+//	  boundary passes (so that some Start straddles it), each then writing one record well inside the
+//	  new interval: written one at a time, it must not sit in the previous interval's file.
+//	idle-resume: one appender, idle across at least one whole interval, then 2-12 writers resume in
+//	  the same instant with long bursts: every record whole and exactly once.
+func TestC13_Edges(t *testing.T) {
+	vk.Rule(rule)
+	base := vk.Scratch("c13e")
+	n := 0
+	rapid.Check(t, func(t *rapid.T) {
+		n++
+		dir := filepath.Join(base, strconv.Itoa(n))
+		_ = os.MkdirAll(dir, 0o755)
+		interval := time.Second
+		var err error
+		var desc string
+		if rapid.Bool().Draw(t, "startAcross") {
+			apps := rapid.SampledFrom([]int{12, 24, 6, 40}).Draw(t, "appenders")
+			afterMS := rapid.SampledFrom([]int{300, 120, 600}).Draw(t, "writeAfterMS")
+			fresh := rapid.Bool().Draw(t, "freshValue")
+			desc = fmt.Sprintf("start-across appenders=%d writeAfter=%dms freshValue=%v", apps, afterMS, fresh)
+			vk.Class("edges:start-across")
+			err = startAcross(dir, interval, apps, afterMS, fresh)
+		} else {
+			writers := rapid.SampledFrom([]int{12, 8, 4, 2}).Draw(t, "writers")
+			burst := rapid.SampledFrom([]int{3000, 1500, 5000}).Draw(t, "burst")
+			idle := rapid.SampledFrom([]int{1, 1, 2}).Draw(t, "idleIntervals")
+			offMS := rapid.SampledFrom([]int{150, 20, 500}).Draw(t, "resumeOffsetMS")
+			rounds := rapid.SampledFrom([]int{4, 3, 2}).Draw(t, "rounds")
+			desc = fmt.Sprintf("idle-resume writers=%d burst=%d idle=%d intervals resume=+%dms rounds=%d", writers, burst, idle, offMS, rounds)
+			vk.Class("edges:idle-resume")
+			err = idleResume(dir, interval, writers, burst, idle, offMS, rounds)
+		}
+		vk.Eval()
+		vk.NonTrivial(desc)
+		vk.Sample(map[string]any{"edge_case": desc})
+		if err != nil {
+			if strings.Contains(err.Error(), "VERIF-INCONCLUSIVE") {
+				t.Fatalf("%v", err)
+			}
+			p := vk.SaveCase("c13", map[string]any{"edge_case": desc, "error": err.Error(), "schedule_dependent": true})
+			t.Fatalf("VERIF-VIOLATION C13: %v\ncase: %s (%s)", err, desc, p)
+		}
+		_ = os.RemoveAll(dir)
+	})
+}
+
+func startAcross(base string, interval time.Duration, apps, afterMS int, fresh bool) error {
+	now := time.Now()
+	b := now.Truncate(interval).Add(interval)
+	if b.Sub(now) < 450*time.Millisecond {
+		b = b.Add(interval)
+	}
+	errs := make([]error, apps)
+	var wg sync.WaitGroup
+	for i := 0; i < apps; i++ {
+		wg.Add(1)
+		go func() {
+			defer wg.Done()
+			dir := filepath.Join(base, strconv.Itoa(i))
+			_ = os.MkdirAll(dir, 0o755)
+			mk := func() *log.RollingFileAppender {
+				return &log.RollingFileAppender{AppenderBase: log.AppenderBase{Name: "r"}, FileDir: dir, FileName: "e.log", Rotation: log.TimeRotation{Interval: interval}, MaxAge: 1000}
+			}
+			app := mk()
+			if err := app.Start(); err != nil {
+				errs[i] = fmt.Errorf("VERIF-INCONCLUSIVE: %v", err)
+				return
+			}
+			spinUntil(b.Add(-3*time.Millisecond), 350*time.Millisecond)
+			for time.Now().Before(b) { // the last Start of this loop is the one during which the boundary passed
+				app.Stop()
+				if fresh {
+					app = mk()
+				}
+				if err := app.Start(); err != nil {
+					errs[i] = fmt.Errorf("VERIF-INCONCLUSIVE: restart: %v", err)
+					return
+				}
+			}
+			time.Sleep(time.Until(b.Add(time.Duration(afterMS) * time.Millisecond)))
+			line := fmt.Sprintf("w%d:0:0:%08x|\n", i, crc32.ChecksumIEEE(nil))
+			t0 := time.Now()
+			app.Write([]byte(line))
+			t1 := time.Now()
+			app.Stop()
+			if o := judge("e.log", dir, interval, []rec{{i, 0, "", 0, t0, t1}}, true); o.err != nil {
+				errs[i] = fmt.Errorf("appender %d, stopped and started again while the boundary %s passed: %v", i, b.Format("15:04:05"), o.err)
+			}
+		}()
+	}
+	wg.Wait()
+	for _, e := range errs {
+		if e != nil {
+			return e
+		}
+	}
+	return nil
+}
+
+func idleResume(dir string, interval time.Duration, writers, burst, idle, offMS, rounds int) error {
+	app := &log.RollingFileAppender{AppenderBase: log.AppenderBase{Name: "r"}, FileDir: dir, FileName: "e.log", Rotation: log.TimeRotation{Interval: interval}, MaxAge: 1000}
+	if err := app.Start(); err != nil {
+		return fmt.Errorf("VERIF-INCONCLUSIVE: %v", err)
+	}
+	var all []rec
+	var mu sync.Mutex
+	seqBase := 0
+	for r := 0; r < rounds; r++ {
+		pre := fmt.Sprintf("w99:%d:0:%08x|\n", r, crc32.ChecksumIEEE(nil))
+		t0 := time.Now()
+		app.Write([]byte(pre))
+		all = append(all, rec{99, r, "", 0, t0, time.Now()})
+		b := time.Now().Truncate(interval).Add(interval)
+		resume := b.Add(time.Duration(idle)*interval + time.Duration(offMS)*time.Millisecond)
+		var wg sync.WaitGroup
+		for w := 0; w < writers; w++ {
+			wg.Add(1)
+			go func() {
+				defer wg.Done()
+				lines := make([]string, burst)
+				for i := range lines {
+					p := string(rune('a' + (w+i)%26))
+					lines[i] = fmt.Sprintf("w%d:%d:1:%08x|%s\n", w, seqBase+i, crc32.ChecksumIEEE([]byte(p)), p)
+				}
+				mine := make([]rec, 0, burst)
+				spinUntil(resume, 350*time.Millisecond)
+				for i, ln := range lines {
+					t0 := time.Now()
+					app.Write([]byte(ln))
+					mine = append(mine, rec{w, seqBase + i, ln[len(ln)-2 : len(ln)-1], 1, t0, time.Now()})
+				}
+				mu.Lock()
+				all = append(all, mine...)
+				mu.Unlock()
+			}()
+		}
+		wg.Wait()
+		seqBase += burst
+	}
+	app.Stop()
+	return judge("e.log", dir, interval, all, false).err
 }
 
 // TestC13_StalledWriter reaches the interleaving the random time-lines only meet by luck: one
